@@ -181,6 +181,28 @@ def run(chk: Check):
             except Exception as ex:
                 chk.violation(f"ad-entry-raises:{site}", f"one-body limit raised {type(ex).__name__}: {str(ex)[:300]}", ctx)
             chk.sample({"one_body_limit": {"eigenvalues": evals, "nelec": list(nelec), "E0_exact": e0, "orbital_scale": d}}, limit=6)
+            if not rot:
+                continue
+            # ---- the same limit THROUGH THE DRIVER, from a trial that is NOT the eigenstate: with orbital relaxation the
+            # optimised trial is the exact eigenstate, so every block energy is sum_occ eps_i and every block response
+            # tr(rho O) whatever the walkers are - for do_sr True and False (the driver's own dispatch of the entry points)
+            qr = np.linalg.qr(np.eye(norb) + 0.35 * np.random.default_rng(60 + rid).normal(size=(norb, norb)))[0]
+            Cp = Cq @ qr
+            sysp = dict(sysd)
+            sysp["wave_data"] = {"mo_coeff": [jnp.array(Cp[:, : nelec[0]]), jnp.array(Cp[:, : nelec[1]])],
+                                 "rdm1": jnp.array([Cp[:, : nelec[0]] @ Cp[:, : nelec[0]].T, Cp[:, : nelec[1]] @ Cp[:, : nelec[1]].T])}
+            exact_d = (a["trnum"][0][0] + a["trnum"][1][0]) / a["d2"]
+            for do_sr in (True, False):
+                opts = runlevel.default_options(seed=3 + rid, n_eql=1, ad_mode="forward", orbital_rotation=True, do_sr=do_sr)
+                dsite = f"one-body-limit:driver:rot:{'sr' if do_sr else 'nosr'}"
+                try:
+                    _, res, _, files = runlevel.run_driver(chk, sysp, opts, (2, 1, 1), 2, name=f"c06-drv-{rid}-{int(do_sr)}",
+                                                           observable=(np.array(obsi[0]) * 1.0, 0.0))
+                    raw = np.atleast_2d(np.array([[float(x) for x in ln.split()] for ln in files["samples_raw.dat"].splitlines() if ln.strip()]))
+                    rel_trace(f"{dsite}:energy", [float(np.max(np.abs(raw[:, 1] - e0)))], e0, 2e-6, ctx=dict(ctx, do_sr=do_sr))
+                    rel_trace(f"{dsite}:response", [float(np.max(np.abs(raw[:, 2] - exact_d)))], exact_d, 2e-6, ctx=dict(ctx, do_sr=do_sr))
+                except Exception as ex:
+                    chk.violation(f"ad-entry-raises:{dsite}", f"driver.afqmc in the one-body limit raised {type(ex).__name__}: {str(ex)[:300]}", ctx)
     verdicts = ladder.judge(chk, traces, "ad")
     for tid, v in verdicts.items():
         name, errs, scale, bound, ctx = info[tid]
